@@ -1,6 +1,7 @@
-// C17 conformance harness: c17_wrappers OUT [order|strong|all] [quick|thorough] [seed]
+// C17 conformance harness: c17_wrappers OUT [order|strong|own|all] [quick|thorough] [seed] [OWNERSHIP_SCRIPTS]
 //   order   comparison / hash matrices of the value types        (c17_order.cpp)
 //   strong  strong_typedef operators and transparent wrappers    (c17_strong.cpp)
+//   own     smart-pointer ownership histories, wrapper conversions (c17_own.cpp; observed only)
 // The harness only drives the real fcppt code and records; TLC (spec/OrderJudge.tla) judges.
 #include <common/vjson.hpp>
 
@@ -8,12 +9,13 @@
 
 void c17_order_records();
 void c17_strong_records(bool thorough, unsigned long long seed);
+void c17_ownership_records(char const *scripts, bool thorough, unsigned long long seed);
 
 int main(int argc, char **argv)
 {
   if (argc < 2)
   {
-    std::fprintf(stderr, "usage: c17_wrappers OUT [order|strong|all] [quick|thorough] [seed]\n");
+    std::fprintf(stderr, "usage: c17_wrappers OUT [order|strong|own|all] [quick|thorough] [seed] [scripts]\n");
     return 3;
   }
   std::string const what = argc > 2 ? argv[2] : "all";
@@ -22,6 +24,7 @@ int main(int argc, char **argv)
   vj::open(argv[1]);
   if (what == "order" || what == "all") c17_order_records();
   if (what == "strong" || what == "all") c17_strong_records(thorough, seed);
+  if (what == "own" || what == "all") c17_ownership_records(argc > 5 ? argv[5] : nullptr, thorough, seed);
   vj::close();
   return 0;
 }
